@@ -60,11 +60,38 @@ def cell_dir(cfg, prof, instr="native"):
     return os.path.join(BUILD, name)
 
 
+MIRI_FLAGS = {
+    "miri-sb": "-Zmiri-disable-isolation -Zmiri-no-extra-rounding-error",
+    "miri-tb": "-Zmiri-disable-isolation -Zmiri-no-extra-rounding-error -Zmiri-tree-borrows",
+}
+
+
+def miri_cmd(cfg, prof, engine):
+    cmd = ["cargo", "+nightly", "miri", "run", "--offline", "--quiet", "--manifest-path", os.path.join(HARNESS, "Cargo.toml"),
+           "--target-dir", cell_dir(cfg, prof, "miri")]
+    cmd += ["--release"] if prof == "rel" else ["--profile", "chk"]
+    if FEATURES[cfg]:
+        cmd += ["--features", FEATURES[cfg]]
+    cmd += ["--bin", engine, "--"]
+    return cmd
+
+
 def build(cfg, prof, bins, instr="native"):
     """Build harness binaries for one matrix cell from /repo's current tree. Returns dir with the binaries."""
     key = (cfg, prof, instr, tuple(sorted(bins)))
     if key in _built:
         return _built[key]
+    if instr.startswith("miri"):
+        # warm-up: make cargo-miri compile the binary once, before shards run in parallel
+        env = base_env()
+        env["RUSTFLAGS"] = HOOK_FLAG
+        env["MIRIFLAGS"] = MIRI_FLAGS[instr]
+        for b in bins:
+            p = subprocess.run(miri_cmd(cfg, prof, b) + ["--warmup"], env=env, stdout=subprocess.PIPE, stderr=subprocess.STDOUT, text=True)
+            if p.returncode != 0:
+                raise BuildError("miri build failed for %s/%s %s:\n%s" % (cfg, prof, b, tail(p.stdout, 40)))
+        _built[key] = "MIRI"
+        return "MIRI"
     tdir = cell_dir(cfg, prof, instr)
     env = base_env()
     cmd = ["cargo"]
@@ -130,13 +157,21 @@ class ShardResult:
 
 def run_shard(job, idx, prop, sd, workdir, extra_args=None):
     res = ShardResult(job, idx)
-    exe = os.path.join(job.bindir, job.engine)
     logf = os.path.join(workdir, "%s-%d.log" % (job.name, idx))
-    cmd = list(job.wrapper) + [exe, "--prop", prop, "--seed", str(sd), "--shard", "%d/%d" % (idx, job.shards), "--budget-s", "%.1f" % job.budget,
+    if job.instr.startswith("miri"):
+        launcher = miri_cmd(job.cfg, job.prof, job.engine)
+    else:
+        launcher = list(job.wrapper) + [os.path.join(job.bindir, job.engine)]
+    cmd = launcher + ["--prop", prop, "--seed", str(sd), "--shard", "%d/%d" % (idx, job.shards), "--budget-s", "%.1f" % job.budget,
                                "--replay-dir", REPLAYS, "--log", logf,
                                "--corpus64", os.path.join(CORPUS, "cf_hard_f64.txt"), "--corpus32", os.path.join(CORPUS, "cf_hard_f32.txt")] + job.args + list(extra_args or [])
     res.cmd = cmd
     env = base_env()
+    if job.instr.startswith("miri"):
+        env["RUSTFLAGS"] = HOOK_FLAG
+        env["MIRIFLAGS"] = MIRI_FLAGS[job.instr] + (" " + job.miriflags if getattr(job, "miriflags", "") else "")
+    if job.instr == "asan":
+        env["ASAN_OPTIONS"] = "halt_on_error=1:abort_on_error=0:detect_leaks=0:exitcode=77"
     env.update(job.env)
     to = job.timeout or (job.budget * 6 + 120)
     t0 = time.time()
@@ -242,6 +277,39 @@ def abnormal(results):
             else:
                 out.append((r, "exit status %s without summary" % r.rc))
     return out
+
+
+# ---------------------------------------------------------------- sanitizer / interpreter reports
+
+def first_repo_frame(text):
+    """First stack frame (file:line) inside the crate under test."""
+    for m in re.finditer(r"(?:/repo/)?(src/[a-z_]+\.rs):(\d+)", text):
+        return "%s:%s" % (m.group(1), m.group(2))
+    return None
+
+
+def sanitizer_report(res):
+    """Recognise a Miri / ASan / valgrind report in a shard's stderr. Returns dict or None."""
+    err = res.stderr or ""
+    m = re.search(r"error: Undefined Behavior: ([^\n]*)", err)
+    if m:
+        # the report proper starts at the match
+        rep = err[m.start():]
+        frame = first_repo_frame(rep)
+        return {"tool": "miri", "kind": "Undefined Behavior", "message": m.group(1).strip(), "frame": frame, "excerpt": tail(rep[:6000], 60)}
+    m = re.search(r"error: (unsupported operation|memory leaked|the evaluated program [^\n]*|deadlock[^\n]*|[^\n]*data race[^\n]*)", err, re.I)
+    if m and "miri" in " ".join(res.cmd):
+        rep = err[m.start():]
+        return {"tool": "miri", "kind": m.group(1).strip(), "message": m.group(0).strip(), "frame": first_repo_frame(rep), "excerpt": tail(rep[:6000], 60), "maybe_harness": "unsupported" in m.group(1)}
+    m = re.search(r"ERROR: AddressSanitizer: ([^\n]*)", err)
+    if m:
+        rep = err[m.start():]
+        return {"tool": "asan", "kind": "AddressSanitizer", "message": m.group(1).strip(), "frame": first_repo_frame(rep), "excerpt": tail(rep[:8000], 60)}
+    m = re.search(r"WARNING: ThreadSanitizer: ([^\n]*)", err)
+    if m:
+        rep = err[m.start():]
+        return {"tool": "tsan", "kind": "ThreadSanitizer", "message": m.group(1).strip(), "frame": first_repo_frame(rep), "excerpt": tail(rep[:8000], 60)}
+    return None
 
 
 # ---------------------------------------------------------------- known findings
